@@ -3,6 +3,7 @@
 package verifsimnet
 
 import (
+	"context"
 	"errors"
 	"fmt"
 	"io"
@@ -40,10 +41,10 @@ type Net struct {
 	// client re-connecting from the port it used before (SO_REUSEADDR, a NAT
 	// that pins the port)
 	NextLocalPort int
-	Refuse    map[string]bool // addresses refusing connections
-	Blackhole map[string]bool // addresses accepting the dial but never answering
-	Dials     []string        // every dialled address, in order (C18)
-	DialHook  func(addr string)
+	Refuse        map[string]bool // addresses refusing connections
+	Blackhole     map[string]bool // addresses accepting the dial but never answering
+	Dials         []string        // every dialled address, in order (C18)
+	DialHook      func(addr string)
 }
 
 var cur *Net
@@ -499,4 +500,40 @@ func (n *Net) HasListener(addr string) bool {
 	defer n.mu.Unlock()
 	_, ok := n.listeners[addr]
 	return ok
+}
+
+// NetDial / NetDialTimeout / DialerDial / DialerDialContext replace net.Dial,
+// net.DialTimeout and the methods of net.Dialer in dtail code: however the
+// code opens its TCP connections, they end on the simulated network.
+func NetDial(network, addr string) (net.Conn, error) { return NetDialTimeout(network, addr, 0) }
+
+func NetDialTimeout(network, addr string, timeout time.Duration) (net.Conn, error) {
+	n := cur
+	if n == nil {
+		return nil, errors.New("simnet: no network installed")
+	}
+	c, err := n.Dial(addr, timeout)
+	if err != nil {
+		return nil, err
+	}
+	return c, nil
+}
+
+func DialerDial(timeout time.Duration, network, addr string) (net.Conn, error) {
+	return NetDialTimeout(network, addr, timeout)
+}
+
+func DialerDialContext(timeout time.Duration, ctx context.Context, network, addr string) (net.Conn, error) {
+	if err := ctx.Err(); err != nil {
+		return nil, &net.OpError{Op: "dial", Net: network, Err: err}
+	}
+	if dl, ok := ctx.Deadline(); ok {
+		if d := time.Until(dl); timeout <= 0 || d < timeout {
+			timeout = d
+		}
+		if timeout <= 0 {
+			return nil, &net.OpError{Op: "dial", Net: network, Err: context.DeadlineExceeded}
+		}
+	}
+	return NetDialTimeout(network, addr, timeout)
 }
